@@ -26,7 +26,17 @@ RULE = ("case = (namespace tree of depth <= 3 with a nested configuration dict p
         "weighted towards grandchildren and below), add_task (aliases, defaults) and add_collection of new configured "
         "sub-trees (also as default sub-collection) at every depth, and the mounting of a collection of the tree under a "
         "second configured root that is then asked as well; a history is non-trivial when a mutation at depth >= 1 is "
-        "followed by a lookup through a strict ancestor")
+        "followed by a lookup through a strict ancestor.  Module-backed collections as a node kind of the histories: a "
+        "synthetic module with its own configured `ns` / `namespace` collection (possibly with sub-collections, its own "
+        "auto_dash_names) or without one, loaded 1-3 times into one collection of the tree by add_collection(module) / "
+        "Collection.from_module(name=, config=, auto_dash_names=), before the first lookup (pure construction) or in the "
+        "middle of a history, usually followed by configure() on ONE loaded copy; the other copies, the whole tree and the "
+        "module's own ns object (asked as a further root, its stored configuration compared after every lookup) are judged "
+        "by the same oracle, names keyed by path (copies hold equal or the same Task objects).  Calls without a name: 2-3 "
+        "equal-but-distinct Task objects (same function wrapped twice under one name / deep copy / the copies of one module's "
+        "task) in different collections of a generated tree, as pre/post tasks of 1-2 main tasks with different call "
+        "arguments or with deduplication off, run by ONE Executor (several execute() calls, repeated commands) or by "
+        "Program; every body must see the deep merge along the path of the collection it lives in")
 TRUSTED = ["Lean 4.33 kernel", "axioms propext/Classical.choice/Quot.sound only",
            "harness/props/c10.py + c17.py: tree builder, serialisation of the real object, canonicalisation",
            "models Invoke/Model/Collection.lean and Invoke/Model/Val.lean hand-written, tied to invoke.collection / "
@@ -49,7 +59,8 @@ LEVEL_TEXT = ("Lean 4 proofs over ALL namespace trees and names: whenever task_w
               "(history_lookup_depends_only_on_current_tree, history_earlier_lookups_irrelevant), is the deep merge along "
               "the path in THAT tree (history_config_is_deep_merge_of_current_tree), configure reaches exactly the "
               "addressed collection and mutations off the path change nothing (configure_updates_the_addressed_collection, "
-              "mutation_off_path_changes_nothing) - the same step lists are replayed on the real objects and on the model "
+              "mutation_off_path_changes_nothing; loaded_copies_are_independent_example for two loads of one module - "
+              "from_module is construction, the model is the resulting tree) - the same step lists are replayed on the real objects and on the model "
               "(driver query H); the model is tied to invoke.collection + "
               "merge_dicts on every run by a differential check on generated trees and a direct recursive-merge oracle; "
               "freshness is proved on a minimal object model (dicts with addresses, copy_dict/merge_dicts allocating: "
@@ -270,6 +281,7 @@ def gen_history(rng, spec, nsteps):
         return rng.choices(ns, weights=w)[0]
 
     mounted = []  # second roots: (index, path of the shared collection in the first tree)
+    nroots = [0]  # further lookup roots: second roots and the `ns` objects of modules
 
     def look(path=None, root=0):
         if path is None:
@@ -283,11 +295,100 @@ def gen_history(rng, spec, nsteps):
             return
         n, p = rng.choice(inner)
         cfg = base.gen_cfg(rng, True)
+        nroots[0] += 1
         steps.append({"op": "mount", "at": p, "cfg": cfg, "ad": root_ad if rng.random() < 0.8 else (not root_ad),
-                      "bind": "shared_x%d" % (len(mounted) + 1)})
-        mounted.append((len(mounted) + 1, p))
-        look([], len(mounted))
+                      "bind": "shared_x%d" % nroots[0]})
+        mounted.append((nroots[0], p))
+        look([], nroots[0])
 
+    def add_module(k):
+        """a synthetic module - with its own configured `ns` / `namespace` collection, or without one - loaded once,
+        twice or three times (add_collection(module) / Collection.from_module with name=, config=, auto_dash_names=)
+        into one collection of the tree; -> (path of the parent, indices of the new children, lookup root of the ns)"""
+        node, path = pick_node(0.7)
+        opts = {"mixed": False, "clash": False, "rich": True}
+        kind = "ns" if rng.random() < 0.75 else "implicit"
+        if kind == "ns":
+            ns = None
+            for _try in range(8):
+                cand = base.methodsify(base.gen_node(rng, rng.choice([1, 2, 2]), root_ad, opts, name=rng.choice(["modns%d" % k, None])))
+                if base.has_tasks(cand) and cand["tasks"] and base.well_formed(cand):
+                    ns = cand
+                    break
+            if ns is None:
+                return None
+            if rng.random() < 0.3:
+                ns["ad"] = rng.choice([True, False])
+            if not ns["cfg"] or rng.random() < 0.5:
+                ns["cfg"] = base.gen_cfg(rng, True) or {"sec": {"a": k}}
+        else:
+            ns = {"name": None, "ad": None, "tasks": [], "colls": [], "cfg": {}, "via": "methods"}
+            for fn in rng.sample(base.FN, rng.randint(1, 3)):
+                ns["tasks"].append({"fn": fn, "tname": None, "own": ["al_" + fn] if rng.random() < 0.3 else [], "bind": None,
+                                    "extra": [], "default": None})
+            if rng.random() < 0.4:
+                ns["tasks"][0]["default"] = "decl"
+            if not base.well_formed(dict(ns, ad=True)):
+                return None
+        mounts = []
+        for mi in range(rng.choice([1, 2, 2, 2, 3])):
+            m = {"bind": "mnt%d_%d" % (k, mi), "via": rng.choice(["module", "module", "from_module"]), "given": None, "config": None,
+                 "ad": None, "default": False}
+            if m["via"] == "from_module":
+                if rng.random() < 0.5:
+                    m["given"] = "given%d_%d" % (k, mi)
+                    if rng.random() < 0.5:
+                        m["bind"] = None  # mounted under the name given to from_module
+                if rng.random() < 0.5:
+                    cfg = base.gen_cfg(rng, True)
+                    try:
+                        base.ref_merge_into(copy.deepcopy(ns["cfg"]), cfg)
+                        m["config"] = cfg or None
+                    except base.Clash:
+                        pass
+                if rng.random() < 0.25:
+                    m["ad"] = rng.choice([True, False])
+            if mi == 0 and rng.random() < 0.25 and base.default_target_local(node) is None and has_default(ns):
+                m["default"] = True
+            mounts.append(m)
+        nroots[0] += 1 if kind == "ns" else 0
+        st = {"op": "add_module", "at": path, "kind": kind, "attr": rng.choice(["ns", "ns", "namespace"]), "modname": "pkg.mod%d" % k,
+              "node": ns, "mounts": mounts}
+        steps.append(st)
+        first = len(node["colls"])
+        for m in mounts:
+            node["colls"].append({"node": mounted_spec(st, m, copy.deepcopy(ns)), "bind": m["bind"], "default": m["default"]})
+        return path, list(range(first, first + len(mounts))), (nroots[0] if kind == "ns" else None)
+
+    def after_module(res):
+        """the essential continuation: one of the loaded copies is configured, the others (and the module's ns) are asked"""
+        if res is None:
+            return
+        path, idxs, nsroot = res
+        look([])
+        if nsroot is not None and rng.random() < 0.7:
+            look([], nsroot)
+        if rng.random() < 0.75:
+            tgt = path + [rng.choice(idxs)]
+            node = spec_at(spec, tgt)
+            cfg = base.gen_cfg(rng, True) or {"sec": {"a": rng.randint(10, 99)}}
+            try:
+                base.ref_merge_into(copy.deepcopy(node["cfg"]), cfg)
+            except base.Clash:
+                return
+            base.ref_merge_into(node["cfg"], cfg)
+            steps.append({"op": "configure", "at": tgt, "cfg": cfg})
+            look([])
+            if nsroot is not None:
+                look([], nsroot)
+
+    early = rng.random()
+    if early < 0.2:  # pure construction: the modules are loaded before anything is asked
+        serial[0] += 1
+        res = add_module(serial[0])
+        if res is not None and rng.random() < 0.5:
+            serial[0] += 1
+            add_module(serial[0])
     # prime whatever the objects may remember: through the root, and through some intermediate collections
     look([])
     for n, p in nodes():
@@ -302,6 +403,9 @@ def gen_history(rng, spec, nsteps):
         r = rng.random()
         serial[0] += 1
         k = serial[0]
+        if r < 0.14:
+            after_module(add_module(k))
+            continue
         if r < 0.55:
             node, path = pick_node(2.0)
             cfg = base.gen_cfg(rng, True)
@@ -353,6 +457,25 @@ def gen_history(rng, spec, nsteps):
     return steps
 
 
+def spec_at(spec, path):
+    node = spec
+    for i in path:
+        node = node["colls"][i]["node"]
+    return node
+
+
+def mounted_spec(st, m, ns):
+    """what Collection.from_module(module, name=given, config=config, auto_dash_names=ad) makes of the module's ns (or of
+    its bare tasks), as a plain node: an independent copy, auto-dash on unless told otherwise, config merged over the ns's"""
+    node = ns
+    node["ad"] = True if m["ad"] is None else m["ad"]
+    node["name"] = m["given"] or node["name"] or st["modname"].split(".")[-1]
+    if m["config"]:
+        base.ref_merge_into(node["cfg"], m["config"])
+    node["via"] = "methods"
+    return node
+
+
 def has_default(node):
     return any(t["default"] for t in node["tasks"]) or any(k["default"] and has_default(k["node"]) for k in node["colls"])
 
@@ -365,7 +488,18 @@ def hist_features(spec, steps):
         if st["op"] == "mount":
             mounts[len(mounts) + 1] = st["at"]
             f.append("mount_depth%d" % len(st["at"]))
-        if st["op"] in ("look", "mount"):
+        if st["op"] == "add_module":
+            f.append("module_%s_loaded_%dx" % (st["kind"], min(len(st["mounts"]), 3)))
+            if any(m["config"] for m in st["mounts"]):
+                f.append("module_loaded_with_config_arg")
+            if any(m["config"] is None for m in st["mounts"]) and len(st["mounts"]) > 1 and st["kind"] == "ns":
+                for s2 in steps[i + 1:]:
+                    if s2["op"] == "configure" and s2["at"][:len(st["at"])] == st["at"] and len(s2["at"]) > len(st["at"]):
+                        f.append("module_ns_loaded_twice_then_one_copy_configured")
+                        break
+            if i == 0:
+                f.append("module_loaded_before_first_lookup")
+        if st["op"] in ("look", "mount", "add_module"):
             continue
         for k2, mp in mounts.items():
             if st["at"][:len(mp)] == mp and any(s["op"] == "look" and s.get("root", 0) == k2 for s in steps[i + 1:]):
@@ -386,14 +520,16 @@ def check_look(spec, root, b, st, hist, lines=None):
     node, real = base.node_at(spec, root, st["at"])
     where = "/".join(addr_keys(spec, st["at"])) or "<root>"
     if st.get("root", 0):
-        where = "<second root #%d mounting a collection of the first tree>%s" % (st["root"], "" if where == "<root>" else "/" + where)
+        where = "<further root #%d (a second root mounting a collection of the tree / the ns object of a loaded module)>%s" % (
+            st["root"], "" if where == "<root>" else "/" + where)
     infos = base.expected_bindings(node, real, b)
-    want = {i["vid"]: expected_cfg(i) for i in infos}
-    by_vid = {i["vid"]: i for i in infos}
+    # keyed by NAME: collections loaded from one module hold equal (deep-copied) or even the same Task objects
+    by_name, want = {}, {}
     names = []
     for i in infos:
-        for n in [i["primary"]] + i["aliases"] + i["shortcuts"]:
-            if n not in names:
+        for n in [i["primary"]] + i["aliases"] + [x for x in i["shortcuts"] if i["primary"].startswith(x + ".")]:
+            if n not in by_name:
+                by_name[n] = i
                 names.append(n)
     how = st["how"]
     if how == "contexts":
@@ -409,11 +545,16 @@ def check_look(spec, root, b, st, hist, lines=None):
         if t is None:
             hist["hist_dontcare_type_clash_on_path" if res == "ERR ambiguous" else "hist_name_unresolved(C10)"] += 1
             continue
-        exp = want.get(t._vid)
+        i = by_name[n]
+        if t._vid != i["vid"]:
+            hist["hist_name_other_task(C10)"] += 1
+            continue
+        if id(i) not in want:
+            want[id(i)] = expected_cfg(i)
+        exp = want[id(i)]
         if exp is None:
             hist["hist_dontcare_type_clash_on_path"] += 1
             continue
-        i = by_vid[t._vid]
         got = cfg if how == "twc" else real.configuration(n)
         hist["hist_config_checked"] += 1
         hist["hist_config_checked_pathlen%d" % min(len(i["path_nodes"]), 4)] += 1
@@ -493,6 +634,32 @@ def apply_op(spec, root, b, st):
         real.add_collection(sub, name=ks["bind"], default=True if ks["default"] else None)
         node["colls"].append(ks)
         return enc_sub
+    if st["op"] == "add_module":
+        import types
+        from invoke import Collection
+        nsb = copy.deepcopy(st["node"])
+        mod = types.ModuleType(st["modname"])
+        ns_real = None
+        if st["kind"] == "ns":
+            ns_real = base.build(nsb, b, is_root=False)
+            setattr(mod, st["attr"], ns_real)
+        else:
+            for ts in nsb["tasks"]:
+                t, vid = base.make_task(b, ts)
+                ts["_vid"] = vid
+                setattr(mod, "v_" + ts["fn"], t)
+        encs = []
+        for m in st["mounts"]:
+            ks = {"node": mounted_spec(st, m, copy.deepcopy(nsb)), "bind": m["bind"], "default": m["default"]}
+            if m["via"] == "module":
+                real.add_collection(mod, name=m["bind"], default=True if m["default"] else None)
+            else:
+                loaded = Collection.from_module(mod, name=m["given"], config=copy.deepcopy(m["config"]), auto_dash_names=m["ad"])
+                real.add_collection(loaded, name=m["bind"], default=True if m["default"] else None)
+            node["colls"].append(ks)
+            child = dict.get(real.collections, base.norm(base.eff_ad(node), base.kid_raw(ks)))
+            encs.append((base.kid_raw(ks), 1 if m["default"] else 0, base.enc(child) if (child is not None and base.encodable(child)) else None))
+        return encs, (nsb, ns_real)
     raise ValueError(st["op"])
 
 
@@ -531,6 +698,11 @@ def run_history(tree, steps, hist=None, want_model=False):
             looked = [] if (enc0 is not None and not st.get("root", 0)) else None
             found = check_look(rspec, rreal, b, st, hist, looked)
             hist["hist_looks"] += 1
+            for ri, (xspec, xreal) in enumerate(roots[1:], 1):  # second roots and the ns objects of loaded modules keep what they store
+                xexp = base.eff_cfg(xspec)
+                if not found and xexp is not None and diff_path(xreal.configuration(), xexp) is not None:
+                    found = [("stored-configuration-changed", "the collection that is further root #%d (a second root / the ns object of a "
+                              "loaded module) no longer stores what was configured: %r, expected %r" % (ri, xreal.configuration(), xexp), [])]
             if looked:
                 addr = ".".join(addr_keys(spec, st["at"]))
                 for at, n, res in sorted(looked, key=lambda x: -x[1].count("."))[:6]:
@@ -543,7 +715,17 @@ def run_history(tree, steps, hist=None, want_model=False):
             node = base.node_at(spec, root, st["at"])[0]
             extra = apply_op(spec, root, b, st)
             hist["hist_op_" + st["op"]] += 1
-            if st["op"] == "configure":
+            if st["op"] == "add_module":
+                # from_module is CONSTRUCTION: for the model each loaded copy is a sub-tree added by add_collection
+                encs, (nsb, ns_real) = extra
+                if ns_real is not None:
+                    roots.append((nsb, ns_real))
+                for raw, dflt, e in encs:
+                    if e is None:
+                        enc0 = None
+                    else:
+                        msteps.append("k%s@%s:%d:%s" % (addr, raw, dflt, e))
+            elif st["op"] == "configure":
                 msteps.append("c%s@%s" % (addr, base.enc_val(st["cfg"])))
             elif st["op"] == "add_task":
                 ts = st["task"]
@@ -603,17 +785,257 @@ def run_histories(ctx, out, lines, expect):
             out.fail(short, "%s [history on one tree]: %s" % (kind, why))
 
 
+# ------------------------------------------------------------------------------------------ calls without an invocation name
+# Pre-tasks, post-tasks (and the implicit default) carry no name; they still receive the settings of the namespace they
+# LIVE in.  `Task.__eq__/__hash__` compare name and body, so equal-but-distinct Task objects exist: the same function
+# wrapped twice under one name, a deep copy, the copies made when one module is loaded twice.  A case puts 2-3 such twins
+# into different collections (with different settings) of a generated tree, makes them pre/post tasks of one or two main
+# tasks - with different call arguments, or plainly with deduplication off - and runs the mains through ONE Executor
+# (several execute() calls) or through Program.  Oracle: every body sees the deep merge along the path of ITS collection.
+
+TWINLOG = []
+
+
+def _snap(c):
+    snap = {}
+    for k in base.WATCH_KEYS:
+        try:
+            snap[k] = base.plain(c.config[k])
+        except KeyError:
+            pass
+    return snap
+
+
+def twin_helper(c, tag=None):
+    TWINLOG.append((tag, _snap(c)))
+
+
+def gen_unnamed(rng, spec):
+    nodes = [list(p) for n, p in base.spec_nodes(spec)]
+    if len(nodes) < 2:
+        return None
+    ntw = min(len(nodes), rng.choice([2, 2, 3]))
+    ats = rng.sample(nodes, ntw)
+    twins = [{"at": at, "how": rng.choice(["wrap", "wrap", "deepcopy"])} for at in ats]
+    if rng.random() < 0.3:  # twins as the copies of one module's task, the module loaded into several collections
+        for tw in twins:
+            tw["how"] = "module"
+    mode = rng.choice(["tags", "tags", "nodedupe"])
+    mains = []
+    for mi in range(rng.choice([1, 2, 2])):
+        order = list(range(ntw))
+        rng.shuffle(order)
+        cut = rng.randrange(len(order) + 1)
+        pre, post = order[:cut], order[cut:]
+        if rng.random() < 0.4 and mode == "tags":
+            pre = pre + [rng.choice(order)]  # the same twin twice, with another argument
+        mains.append({"at": rng.choice(nodes), "pre": pre, "post": post})
+    via = rng.choice(["executor", "executor", "program"])
+    if mode == "nodedupe":
+        via = "executor"  # a Program with a bundled namespace offers no --no-dedupe: the setting comes from the Config
+    if via == "program" or mode == "nodedupe" or rng.random() < 0.5:
+        runs = [[mi] for mi in range(len(mains))]
+    else:
+        runs = [list(range(len(mains)))]
+    if via == "executor" and rng.random() < 0.4:
+        runs = runs + [runs[0]]  # the same command again on the same Executor
+    return {"twins": twins, "mains": mains, "mode": mode, "via": via, "runs": runs}
+
+
+def run_unnamed(tree, u, hist=None):
+    """-> list of (kind, why)"""
+    import contextlib
+    import io
+    import types
+    from collections import Counter
+    from invoke import Collection, Config, Executor, Program, Task, call
+    hist = hist if hist is not None else Counter()
+    spec, root, b = base.build_case(tree)
+    fails = []
+    twins = []
+    first = Task(twin_helper, name="helper")
+    mod = types.ModuleType("pkg.helpers")
+    mod.ns = Collection("helpers", first)  # from_module deep-copies the tasks of a module's ns at every load
+    for k, tw in enumerate(u["twins"]):
+        node, real = base.node_at(spec, root, tw["at"])
+        b.next_id += 1
+        vid = b.next_id
+        if tw["how"] == "module":
+            # the module's task is deep-copied by every load: equal, distinct objects
+            real.add_collection(mod, name="hmod")
+            sub = dict.get(real.collections, base.norm(base.eff_ad(node), "hmod"))
+            t = sub.tasks["helper"]
+            t._vid = vid
+            node["colls"].append({"node": {"name": "helpers", "ad": True, "tasks": [
+                {"fn": "helper", "tname": "helper", "own": [], "bind": None, "extra": [], "default": None, "_vid": vid}],
+                "colls": [], "cfg": {}, "via": "methods"}, "bind": "hmod", "default": False})
+        else:
+            t = first if k == 0 else (copy.deepcopy(first) if tw["how"] == "deepcopy" else Task(twin_helper, name="helper"))
+            t._vid = vid
+            real.add_task(t)
+            node["tasks"].append({"fn": "helper", "tname": "helper", "own": [], "bind": None, "extra": [], "default": None, "_vid": vid})
+        twins.append((t, vid))
+    if len(set(id(t) for t, _ in twins)) != len(twins) or any(twins[0][0] != t for t, _ in twins[1:]):
+        return [("harness", "the twins are not equal-but-distinct Task objects")]
+    tagmap = {}
+    main_vids = []
+    for mi, m in enumerate(u["mains"]):
+        node, real = base.node_at(spec, root, m["at"])
+        b.next_id += 1
+        vid = b.next_id
+
+        def body(c, _mi=mi):
+            TWINLOG.append(("main%d" % _mi, _snap(c)))
+        body.__name__ = "main%d" % mi
+
+        def mk(pos, lst):
+            out = []
+            for j, ti in enumerate(lst):
+                tag = "m%d-%s%d" % (mi, pos, j)
+                tagmap[tag] = ti
+                out.append(call(twins[ti][0], tag=tag) if u["mode"] == "tags" else twins[ti][0])
+            return out
+        t = Task(body, name="main%d" % mi, pre=mk("pre", m["pre"]), post=mk("post", m["post"]))
+        t._vid = vid
+        main_vids.append(vid)
+        real.add_task(t)
+        node["tasks"].append({"fn": "main%d" % mi, "tname": "main%d" % mi, "own": [], "bind": None, "extra": [], "default": None, "_vid": vid})
+    infos = base.expected_bindings(spec, root, b)
+    by_vid = {i["vid"]: i for i in infos}
+    want = {}
+    for i in infos:
+        e = expected_cfg(i)
+        want[i["vid"]] = None if e is None else {k: v for k, v in e.items() if k in base.WATCH_KEYS}
+    main_names = [by_vid[vid]["primary"] for vid in main_vids]
+    texp = [want[vid] for _, vid in twins]
+    if len(set(json_key(x) for x in texp)) > 1:
+        hist["unnamed_twins_with_different_settings"] += 1
+    where = ["/".join(k for _, k in by_vid[vid]["path_keys"]) or "<root>" for _, vid in twins]
+    overrides = {"tasks": {"dedupe": False}} if u["mode"] == "nodedupe" else {}
+    ex = Executor(root, config=Config(overrides=overrides)) if u["via"] == "executor" else None
+    for ri, run in enumerate(u["runs"]):
+        del TWINLOG[:]
+        names = [main_names[mi] for mi in run]
+        exc = None
+        try:
+            with contextlib.redirect_stdout(io.StringIO()), contextlib.redirect_stderr(io.StringIO()), base.wide_terminal():
+                if ex is not None:
+                    ex.execute(*names)
+                else:
+                    Program(namespace=root).run(["prog"] + names, exit=False)
+        except BaseException as e:  # noqa
+            exc = "%s: %s" % (type(e).__name__, e)
+        log = list(TWINLOG)
+        if exc is not None:
+            if "AmbiguousMergeError" in exc:
+                hist["unnamed_dontcare_type_clash"] += 1
+                continue
+            fails.append(("unnamed-call-raises", "run %d (%s %r): %s" % (ri, u["via"], names, exc)))
+            continue
+        # which twin each logged helper call was: by its tag, or (no arguments, deduplication off) by its position
+        seq = []
+        if u["mode"] == "nodedupe":
+            for mi in run:
+                m = u["mains"][mi]
+                seq += [("twin", ti) for ti in m["pre"]] + [("main", mi)] + [("twin", ti) for ti in m["post"]]
+            if len(seq) != len(log):
+                hist["unnamed_sequence_not_as_listed(C19)"] += 1
+                continue
+        else:
+            for tag, _ in log:
+                seq.append(("main", int(tag[4:])) if tag is not None and tag.startswith("main") else ("twin", tagmap.get(tag)))
+        for (what, k), (tag, seen) in zip(seq, log):
+            if k is None:
+                continue
+            vid = twins[k][1] if what == "twin" else main_vids[k]
+            exp = want.get(vid)
+            if exp is None:
+                hist["unnamed_dontcare_type_clash"] += 1
+                continue
+            d = diff_path(seen, exp)
+            hist["unnamed_body_checked_" + what] += 1
+            if d is not None and what == "twin":
+                others = [where[j] for j in range(len(twins)) if j != k and texp[j] is not None and diff_path(seen, texp[j]) is None]
+                fails.append(("unnamed-call-sees-other-namespace",
+                              "run %d (%s, %s, %r): the %s-task `helper` living in %s (called without a name%s) sees %r at %s, the merge "
+                              "along the path of ITS collection has %r%s"
+                              % (ri, u["via"], u["mode"], names, "pre/post", where[k], "" if tag is None else ", tag %s" % tag,
+                                 get_path(seen, d), ".".join(d), get_path(exp, d),
+                                 ("; what it sees are the settings of the equal-but-distinct task in %s" % others[0]) if others else "")))
+            elif d is not None:
+                fails.append(("body-sees-other-settings", "run %d: main%d invoked as %r sees %r at %s, expected %r"
+                              % (ri, k, names, get_path(seen, d), ".".join(d), get_path(exp, d))))
+    return fails
+
+
+def json_key(x):
+    import json
+    return json.dumps(x, sort_keys=True, default=str)
+
+
+def run_unnamed_calls(ctx, out):
+    rng = ctx.rng
+    count, done, tries = ctx.n(70, 1000), 0, 0
+    while done < count and tries < count * 6:
+        tries += 1
+        spec = base.strip(base.methodsify(base.gen_tree(rng, rich=True)))
+        if not base.well_formed(spec) or not spec["colls"]:
+            continue
+        u = gen_unnamed(rng, spec)
+        if u is None:
+            continue
+        done += 1
+        case = {"tree": spec, "names": [], "unnamed": u}
+        out.hist["unnamed_cases"] += 1
+        out.hist["unnamed_mode_" + u["mode"]] += 1
+        out.hist["unnamed_via_" + u["via"]] += 1
+        out.hist["unnamed_twins_" + "+".join(sorted(set(t["how"] for t in u["twins"])))] += 1
+        if len(u["runs"]) > 1 and u["via"] == "executor":
+            out.hist["unnamed_several_execute_calls_on_one_executor"] += 1
+        out.case(case, True)
+        try:
+            fails = run_unnamed(spec, u, out.hist)
+        except ValueError:
+            out.hist["unnamed_api_refused"] += 1
+            continue
+        except RecursionError:
+            continue
+        except Exception as e:  # noqa
+            fails = [("unexpected-exception", "unnamed-call case raised %s: %s" % (type(e).__name__, e))]
+        seen = set()
+        for kind, why in fails:
+            out.hist["fail_" + kind] += 1
+            if kind in seen:
+                continue
+            seen.add(kind)
+            out.fail(dict(case, check=kind), "%s [calls without a name]: %s" % (kind, why))
+
+
 def run(ctx):
     out = Outcome()
     drv, lines, expect, nq = base.run_trees(ctx, out, True, oracle_c17, ctx.n(220, 3000), 200 if ctx.thorough else 90,
                                             nontrivial=lambda spec, feats: "shared_section_on_path" in feats)
     run_histories(ctx, out, lines, expect)
+    run_unnamed_calls(ctx, out)
     base.compare(ctx, out, drv, lines, expect)
     out.extra["queries"] = nq
     return out
 
 
 def replay(case):
+    if case.get("unnamed"):
+        try:
+            fails = run_unnamed(case["tree"], case["unnamed"])
+        except ValueError as e:
+            return True, "the API refuses this tree (%s)" % e
+        except Exception as e:
+            return False, "unexpected-exception: unnamed-call case raised %s: %s" % (type(e).__name__, e)
+        kind = case.get("check")
+        if kind:
+            fails = [f for f in fails if f[0] == kind]
+        if fails:
+            return False, "; ".join("%s: %s" % (k, w) for k, w in fails[:3])
+        return True, "ok (%d run(s) with unnamed calls)" % len(case["unnamed"]["runs"])
     if case.get("history"):
         try:
             fails, at, _, _ = run_history(case["tree"], case["history"]["steps"])
